@@ -74,6 +74,9 @@ func c10Total(c *vrep.Ctx) {
 	if shape == 3 && c.Param("ts", "six") == "six" {
 		ts = []float64{0, 0.5, 0.8, 1 - 1e-13, math.Nextafter(1, 0), 1} // six of the nine (ts=all: all nine)
 	}
+	if c.Param("ts", "") == "three" {
+		ts = []float64{0, 0.8, 1}
+	}
 	cls := make([]*Classifier, len(ts))
 	for i, t := range ts {
 		cls[i] = c10Corpus(shape, t)
